@@ -488,12 +488,18 @@ class Harness:
         name = "n%d" % idx
         if t.get("log_fail"):
             name = "nodir/n%d" % idx  # log path in a directory that does not exist
-        await self.scheduler.enqueue_task(name=name, script="task:%d:" % idx, working_dir=self.workdir, time_limit=t.get("time_limit"), deps=deps)
+        await self.scheduler.enqueue_task(name=name, script=self._script(idx, t), working_dir=self.workdir, time_limit=t.get("time_limit"), deps=deps)
+
+    @staticmethod
+    def _script(idx, t):
+        if t.get("empty_script"):
+            return ["", "  \n", "\n\n"][idx % 3]
+        return "task:%d:" % idx
 
     async def _enqueue_then_cancel(self, idx, t, deps):
         """cancel request processed before the new task's coroutine had its first step"""
         name = "n%d" % idx
-        tid = await self.scheduler.enqueue_task(name=name, script="task:%d:" % idx, working_dir=self.workdir, time_limit=t.get("time_limit"), deps=deps)
+        tid = await self.scheduler.enqueue_task(name=name, script=self._script(idx, t), working_dir=self.workdir, time_limit=t.get("time_limit"), deps=deps)
         st = self.scheduler.task_states.get(tid)
         self.log("cancel", tid=tid, state_at_delivery=getattr(st, "name", None), immediate=True)
         self.cancel_log.append((tid, getattr(st, "name", None), self.qindex))
@@ -510,6 +516,9 @@ class Harness:
                     idx = int(cand.split(":")[1])
                 except ValueError:
                     pass
+                break
+            if isinstance(cand, str) and cand.split("/")[-1][:1] == "n" and cand.split("/")[-1][1:].isdigit():
+                idx = int(cand.split("/")[-1][1:])  # the harness' own tasks are named n<idx> (their script may be empty)
                 break
         self.all_tids.append(tid)
         if idx is not None and idx not in self.tid_of_idx:
